@@ -287,6 +287,30 @@ fn root_total_zero(node: &Node) -> bool {
     }
 }
 
+/// can a `ZeroWeight` (SelectionError) legitimately be reported: is there a combination of total weight 0
+/// that is the root or reachable through positive weights only?
+fn legit_zero(node: &Node) -> bool {
+    match node {
+        Node::S(st) => {
+            let w = |i: usize| st.leaves[i].1 as u64;
+            match st.code {
+                0 => false,
+                1 => w(0) == 0,
+                8 => (st.extra as u64 + w(2) == 0) || (st.extra > 0 && w(0) + w(1) == 0),
+                _ => st.leaves.iter().all(|x| x.1 == 0),
+            }
+        }
+        Node::Dyn(items) => items.iter().any(|(n, w)| *w > 0 && legit_zero(n)),
+    }
+}
+/// the same for `DynWeighted`'s all-zero error
+fn legit_dynzero(node: &Node) -> bool {
+    match node {
+        Node::S(_) => false,
+        Node::Dyn(items) => items.iter().all(|(_, w)| *w == 0) || items.iter().any(|(n, w)| *w > 0 && legit_dynzero(n)),
+    }
+}
+
 fn wrap_token(w: Wrap, t: &str) -> String {
     match w {
         Wrap::None => t.to_string(),
@@ -350,6 +374,13 @@ fn one_case(d: &mut crate::driver::Driver, r: &mut Report, i: u64, seed: u64) {
     let root_is_leaf = matches!(&node, Node::S(st) if st.code == 0);
     if !root_is_leaf && !dyn_overflow && root_total_zero(&node) != zero_root && !matches!(&node, Node::Dyn(it) if it.iter().map(|x| x.1 as u128).sum::<u128>() > usize::MAX as u128) {
         viol(r, "a zero-weight error must be reported exactly when the root's total weight is 0");
+    }
+    let stripped = real.replace("DynZeroWeight", "");
+    if stripped.contains("ZeroWeight") && !legit_zero(&node) {
+        viol(r, "ZeroWeight reported although every combination that can be reached has positive total weight (a zero-weight member was used)");
+    }
+    if real.contains("DynZeroWeight") && !legit_dynzero(&node) {
+        viol(r, "DynWeighted's zero-weight error reported although no reachable DynWeighted has all weights zero");
     }
     if !is_static10 {
         let is_zero_err = real.ends_with("ZeroWeight") || real.contains("ZeroWeight)") || dyn_overflow;
